@@ -17,6 +17,13 @@ _PS_NOTE = ("Trusted: TLC, the Go harness (gate scheduler, content PRF, projecti
 _B4 = "TLC-enumerated case table (TLA+ decision function over boundary classes) executed on the real code, outcomes checked by TLC against the specification's invariants"
 
 REGISTRY = {
+    "C11": {"run": p_sched.run, "design": "DESIGN.md section 3 C11",
+            "technique": "TLC model checking of Sched.tla / Advert.tla / Pex.tla + behaviours and case tables executed on the real peer code with every message written to the wire checked",
+            "level": "Requests/cancels: the Sched.tla behaviours (see C09) are applied to the real handlers and every Request/Cancel the peer writes is checked "
+                     "against what the remote has advertised/allowed at that moment (index, alignment, exact length incl. the short last block, choke/allowed-fast, "
+                     "duplicates, queue depth). Advertisement: Advert.tla enumerated over piece counts 1..17, 24, 71..73, 144, 145, 160 x held sets x fast; the "
+                     "real peer.Run writes it to a pipe and the harness decodes it. PEX: every edge of Pex.tla's graph + random walks on the real pexState.",
+            "note": "Trusted: TLC, the harness's frame reader. A >4 GiB geometry (fromChunk overflow) is not enumerated by TLC."},
     "C09": {"run": p_sched.run, "design": "DESIGN.md section 3 C09",
             "technique": "TLC exhaustive model checking of Sched.tla + TLC-simulated behaviours applied to the real torrent/peer handlers (stepped mailboxes) + TLC evaluation of Conservation/Availability on the observed bookkeeping",
             "level": "Sched.tla (explicit mailboxes both ways, request/cancel/choke/reject/expiry/piece-payload classes, bitmap changes) is model-checked "
